@@ -23,7 +23,7 @@ REQUIRED = [
     "backend.generic", "backend.sse2", "backend.avx2", "backend.auto", "alphabet.protein", "reuse.increasing",
     "reuse.decreasing", "pseudocount.dict", "pseudocount.dict_with_wildcard_key", "background.wildcard_key", "background.nonuniform", "background.zero_entries", "base.non2",
     "pvalue.meme", "pvalue.tfmpvalue", "pvalue.rc_after_cached_distribution", "pvalue.wildcard_weighted_background", "load.path", "load.bytesio",
-    "load.short_reads", "errors.invalid_symbol_in_long_text", "scan.lone_hit_in_last_row_of_odd_block", "load.jaspar", "load.jaspar16", "load.transfac", "load.uniprobe", "scan.hits>0",
+    "load.short_reads", "errors.invalid_symbol_in_long_text", "scan.lone_hit_in_last_row_of_odd_block", "scan.several_default_blocks", "score.tabulated_pvalue", "load.jaspar", "load.jaspar16", "load.transfac", "load.uniprobe", "scan.hits>0",
 ]
 
 lightmotif = None
@@ -319,6 +319,9 @@ def family_calculate(rep, case, rng):
 def family_scan(rep, case, rng):
     rep.cover("family.scan")
     length = rng.choice([0, 3, 64, 1000, 1024, 1055]) if rng.random() < 0.3 else rng.randint(0, 3000)
+    if rng.random() < 0.08:
+        length = rng.randint(8200, 12000)  # several blocks at the default block size
+        rep.cover("scan.several_default_blocks")
     text = rand_seq(rng, DNA, length, wild=0.02)
     idx = [DNA.index(c) for c in text]
     w = rng.choice([1, 2, 4, 8, 15, 16, 17, 33])
@@ -471,6 +474,32 @@ def family_pvalue(rep, case, rng):
             if p2 < lo2 - 1e-7 or p2 > hi2 + 1e-7:
                 rep.violate("c17.pvalue.tfmpvalue", case, "%s: pvalue(%r, 'tfmpvalue') = %r outside [%r, %r]" % (label, s, p2, lo2, hi2), wit)
                 return False
+        # score(p) for p EQUAL to tabulated tails (attainable p-values such as pvalue(s), which are
+        # not representable in single precision under these backgrounds), just above / below them,
+        # denormal and almost-one p-values: the binding must answer what the core library answers
+        # for the same double-precision p-value on the same cells (reference route that does not
+        # go through the bindings, in the monitor's own extension module)
+        try:
+            sf = list(memoryview(p_obj.score_distribution))
+        except Exception:
+            sf = None
+        if sf:
+            tails = sorted(set(x for x in sf if 0.0 < x < 1.0))
+            queries = [1e-50, 5e-324, 1.0 - 1e-9, 1.0 - 2.0 ** -40]
+            for _ in range(6):
+                if tails:
+                    t = rng.choice(tails)
+                    queries.append(rng.choice([t, t, math.nextafter(t, 0.0), math.nextafter(t, 1.0)]))
+            for pv in queries:
+                ok, sc = call(rep, case, "score(tabulated p)", lambda: p_obj.score(pv), wit)
+                if not ok:
+                    rep.violate("c17.score.error", case, "%s: score(%r) raised %r" % (label, pv, sc), wit)
+                    return False
+                core = helper.core_meme_score([[float(x) for x in r] for r in p_rows], [float(x) for x in bg], pv)
+                rep.cover("score.tabulated_pvalue")
+                if sc != core and not (sc != sc and core != core):
+                    rep.violate("c17.score.meme", case, "%s: score(%r) = %r through the bindings, %r from the core library on the same cells and background" % (label, pv, sc, core), wit)
+                    return False
         # score(p): converting back must not give a larger p-value
         for _ in range(3):
             pv = 10 ** (-rng.uniform(0.3, 5))
